@@ -182,7 +182,7 @@ def build(cfg, float_mode=False):
         # several controllers built from ONE controller-parameter dictionary (and one description per configuration), as a user script would do
         sh = cfg['_shared']
         cp = sh.setdefault('cp', cp)
-        d = sh.setdefault(('d', tuple(cfg['M']), cfg['NP']), d)
+        d = sh.setdefault(('d', tuple(cfg['M'])), d)  # (shared by controllers with different numbers of steps too: a study over num_procs)
     return controller_nonMPI(cfg['NP'], cp, d), A
 
 
